@@ -668,6 +668,10 @@ impl Objective {
 
 impl fmt::Display for Objective {
     fn fmt(&self, f: &mut fmt::Formatter<'_>) -> fmt::Result {
+        //the satisfiability form has no expression: "solve" is the whole objective
+        if self.objective_type == OptimizationType::Satisfy {
+            return write!(f, "{}", self.objective_type);
+        }
         write!(f, "{} {}", self.objective_type, self.rhs)
     }
 }
